@@ -192,6 +192,16 @@ def typed_cases(run, graphs):
         plan.append((g, "subtypes", T)); ops.append(dict(base, what="subtypes", types=[T]))
         plan.append((g, "supertypes", T)); ops.append(dict(base, what="supertypes", types=[T]))
         plan.append((g, "constrain", T)); ops.append(dict(base, what="constrain", inst=g["inst_refs"], types=[T]))
+        # several types asked at once (their subtype sets overlap when one lies below the other): the (type, subtype) table is the
+        # union of the single-type answers — round 8: a de-duplication on the subtype column alone
+        occ = sorted({x for r in allrefs for x in r[:2]} & set(g["types"]))
+        if len(occ) >= 2:
+            many = run.rng.sample(occ, min(len(occ), run.rng.choice([2, 3])))
+            below = [r[1] for r in allrefs if r[2] == HST and r[0] == many[0] and r[1] != many[0]]
+            if below and below[0] not in many:
+                many.append(below[0])
+            plan.append((g, "subtypes_many", many)); ops.append(dict(base, what="subtypes", types=many))
+            plan.append((g, "supertypes_many", many)); ops.append(dict(base, what="supertypes", types=many))
         for sel, nm in ((HIER, "hier"), (NONHIER, "nonhier"), (HASPROP, "hasprop"), (HMR, "hmr")):
             plan.append((g, nm, sel)); ops.append(dict(base, what="constrain", inst=g["inst_refs"], types=[sel]))
         plan.append((g, "hier_mr", HIER)); ops.append(dict(base, what="with_mr", inst=g["inst_refs"], sel=HIER, hmr=HMR))
@@ -208,7 +218,17 @@ def typed_cases(run, graphs):
         run.case(case, tag="typed:" + what)
         run.compared += 1
         try:
-            if what == "subtypes":
+            if what == "subtypes_many":
+                r = nav.subtypes_of_nodes(list(T), tn, tr)
+                io = sorted([int(a), int(b)] for a, b in zip(r["type"], r["subtype"]))
+                want = sorted([t, b] for t in T for b in subs_of(t))
+                mo_c = sorted(mo["pairs"])
+            elif what == "supertypes_many":
+                r = nav.supertypes_of_nodes(list(T), tn, tr)
+                io = sorted([int(a), int(b)] for a, b in zip(r["supertype"], r["type"]))
+                want = sorted([a, t] for t in T for a in ({t} | {a for (a, b) in so if b == t}))
+                mo_c = sorted(mo["pairs"])
+            elif what == "subtypes":
                 r = nav.subtypes_of_nodes([T], tn, tr)
                 io = sorted([int(a), int(b)] for a, b in zip(r["type"], r["subtype"]))
                 want = sorted([T, b] for b in subs_of(T))
@@ -256,7 +276,7 @@ def typed_cases(run, graphs):
         else:
             ok = io == want
         if not ok:
-            if T not in occurs and isinstance(io, list) and run.known("D-C12a"):
+            if not isinstance(T, list) and T not in occurs and isinstance(io, list) and run.known("D-C12a"):
                 run.count("known:D-C12a")
                 continue
             if run.violation(case, {"what": "selection differs from the reachability-based specification", "impl": io,
